@@ -23,7 +23,8 @@ def main(tier: str, seed: int) -> int:
     base = seed * 1_000_003
     for gen, n in (('vf.gen.runs:make_auth_adv', 1500 if quick else 30000),
                    ('vf.gen.runs:make_auth_random', 800 if quick else 20000),
-                   ('vf.gen.runs:make_run', 500 if quick else 10000)):
+                   ('vf.gen.runs:make_run', 500 if quick else 10000),
+                   ('vf.gen.builders:make_builder_run', 580 if quick else 5800)):
         kw = {'auth_ratio': 1.0} if gen.endswith('make_run') else {}
         for off in range(0, n, 10000):
             traces = vmcheck.record([(gen, base + off + i, kw) for i in range(min(10000, n - off))])
